@@ -29,7 +29,11 @@ def run(ck, ctx):
         "trailing blanks of a line do not matter - so by induction the statement text handed to the grammar is the same (up to blanks) "
         "wherever the line breaks fall; and everything parse_data does before the line loop is evaluated on exemplar scripts: CRLF vs "
         "LF, tabs vs blanks, amount of blanks, glued vs spaced commas / parentheses, blank lines, trailing blanks, missing final newline "
-        "give the same lines.")
+        "give the same lines. Seam to the fixed points (O-canon / O-glue / O-break): an edge cover of every fragment spec (all word "
+        "classes in all contexts the fixed points explore) is rendered as scripts - one blank between words; commas and parentheses "
+        "glued to their neighbours; a line break after every comma / opening parenthesis - and pushed through parse_data evaluated "
+        "abstractly: the text reaching the grammar is cut by PLY's scanner (rules in PLY's order) into the same lexemes in all three "
+        "renderings, which are the words the fixed points assume.")
     visited = set()
     frs = [("table", dict(label="constraints", constraints=True, set_null=False)), ("sequence", {})]
     frs += [("clauses", dict(group=g)) for g in GROUPS]
@@ -140,6 +144,13 @@ def run(ck, ctx):
     L.check_line_formation(ck, ctx, lmach)
     ck.floor("O-line", 30)
     ck.floor("O-form", 20)
+    # ---- the seam between the line pre-processing and the fixed points: the sentences of the fragment specs themselves
+    from ..specs import seam
+    seam_frs = [(mod, dict(kw)) for mod, kw in frs] + [("entities", {}), ("kwnames", {})]
+    for _m, kw in seam_frs:
+        kw.pop("judge", None)
+    seam.check_seam(ck, ctx, [(mod, (dict(kw, judge=False) if mod == "alter" else kw)) for mod, kw in seam_frs])
+    ck.floor("O-glue", 10)
     ck.assumptions += ["line layout is decided at line-class level (E7): the laws are shown for the listed classes of continuation / final / "
                        "blank / padded lines in every reachable state of the line machine, and line formation for the listed exemplar scripts "
                        "and layout variants; layout invariance for `;`-terminated statements follows by induction over the lines",
